@@ -1591,15 +1591,20 @@ def run_check(tier, base_seed, wall, workers, do_selftest):
         # third task, the next systematic scan plan (seeds = 3 mod 12) on its own, so that the
         # enumeration corpus chunk x call kind x version advances at a fixed share of the budget
         lo = base_seed * 1_000_000
-        sys_seed = lo + 3
+        sys_seed = lo + (3 - lo) % 12           # systematic scan plans: seeds = 3 mod 12
+        cross_seed = lo + (23 - lo) % 24        # cross plans: seeds = 23 mod 24
         n = 0
         while True:
             n += 1
             if n % 3 == 0:
-                yield (tier, [sys_seed], deadline)
-                sys_seed += 12
+                if n % 2 == 1:
+                    yield (tier, [sys_seed], deadline)
+                    sys_seed += 12
+                else:
+                    yield (tier, [cross_seed], deadline)      # cross plans: seeds = 23 mod 24
+                    cross_seed += 24
             else:
-                yield (tier, [x for x in range(lo, lo + chunk) if x % 12 != 3], deadline)
+                yield (tier, [x for x in range(lo, lo + chunk) if x % 12 != 3 and x % 24 != 23], deadline)
                 lo += chunk
 
     def on_result(task, r, err):
